@@ -1,9 +1,9 @@
 #!/bin/bash
-# intake.sh <PID> <first index>: verify /tmp/mut-<PID>-out/m1,m2 in scratch worktrees, keep them as
+# intake.sh <PID> <first index> [prefix]: verify /tmp/mut-<PID>-out/m1,m2 in scratch worktrees, keep them as
 # seeded/<PID>-m<k>, run the property's check against each
-PID=$1; K=${2:-1}
+PID=$1; K=${2:-1}; PREFIX=${3:-mut}
 for m in m1 m2; do
-  src=/tmp/mut-$PID-out/$m
+  src=/tmp/$PREFIX-$PID-out/$m
   [ -f $src/patch.diff ] || continue
   name=$PID-m$K; K=$((K+1))
   bash /verif/tools/verify_seed.sh $src $name $PID 2>&1 | tail -3
